@@ -257,7 +257,7 @@ func diffState(got, want map[string]interface{}) string {
 	return strings.Join(out, ", ")
 }
 
-const probeDoc = `<Ro-ot A-b="1 &amp; 2" c="x"><It-em>  t&lt;1 </It-em><It-em k="v"> t2<Sub>7</Sub></It-em><e/><Num>1.50</Num><B>true</B><N>Inf</N><I>42</I></Ro-ot>`
+const probeDoc = `<Ro-ot A-b="1 &amp; 2" c="x"><It-em>  t&lt;1 </It-em><It-em k="v"> t2<Sub>7</Sub></It-em><e/><Num>1.50</Num><B>true</B><N>Inf</N><I>42</I><One z="0">1</One><Zero>0</Zero><T>T</T><Big>18446744073709551615</Big><Ovf>1e999</Ovf><Dot>.5</Dot></Ro-ot>`
 
 var probeElem = &XElem{Local: "Ro-ot", Attrs: []XAttr{{Local: "A-b", Value: "1 & 2"}, {Local: "c", Value: "x"}}, Items: []XItem{
 	{Kind: kElem, El: &XElem{Local: "It-em", Items: []XItem{{Kind: kText, Text: "  t<1 "}}}},
@@ -267,6 +267,13 @@ var probeElem = &XElem{Local: "Ro-ot", Attrs: []XAttr{{Local: "A-b", Value: "1 &
 	{Kind: kElem, El: &XElem{Local: "B", Items: []XItem{{Kind: kText, Text: "true"}}}},
 	{Kind: kElem, El: &XElem{Local: "N", Items: []XItem{{Kind: kText, Text: "Inf"}}}},
 	{Kind: kElem, El: &XElem{Local: "I", Items: []XItem{{Kind: kText, Text: "42"}}}},
+	// texts that several cast options could claim: which one does is decided by the documented order (int, float, bool)
+	{Kind: kElem, El: &XElem{Local: "One", Attrs: []XAttr{{Local: "z", Value: "0"}}, Items: []XItem{{Kind: kText, Text: "1"}}}},
+	{Kind: kElem, El: &XElem{Local: "Zero", Items: []XItem{{Kind: kText, Text: "0"}}}},
+	{Kind: kElem, El: &XElem{Local: "T", Items: []XItem{{Kind: kText, Text: "T"}}}},
+	{Kind: kElem, El: &XElem{Local: "Big", Items: []XItem{{Kind: kText, Text: "18446744073709551615"}}}},
+	{Kind: kElem, El: &XElem{Local: "Ovf", Items: []XItem{{Kind: kText, Text: "1e999"}}}},
+	{Kind: kElem, El: &XElem{Local: "Dot", Items: []XItem{{Kind: kText, Text: ".5"}}}},
 }}
 
 // battery: a fixed set of decode/encode/query results rendered as one string.
